@@ -230,11 +230,78 @@ def shard(binpath, seed, sh, n):
     return res
 
 
+def prefix_collision(binpath, res, seed):
+    """two different keys of the layout whose identifiers share their first eight hex digits (the hash-algorithm list is
+    part of a key's description, so such a pair can be searched for): one is a functionary of `build`, the other of `test`
+    only.  The link files of both steps are signed by the `test` functionary and filed under the shared prefix."""
+    import hashlib
+    import jsongen
+    import pipeline
+    rng = common.rng_for(seed, PROP, 808)
+    W = scen.World(binpath)
+    ka, kb = rng.sample(["ed2", "ed3", "ed5", "edp1"], 2)
+
+    def template(k):
+        p = W.pub(k)
+        d = {"keytype": p["keytype"], "scheme": p["scheme"], "keyval": {"public": p["keyval"]["public"]}, "keyid_hash_algorithms": ["sha256", "@TAG@"]}
+        return jsongen.olpc_canon(d)
+    ta, tb = template(ka), template(kb)
+    seen = {}
+    pair = None
+    for i in range(400000):
+        ia = hashlib.sha256(ta.replace("@TAG@", f"a{i}").encode()).hexdigest()
+        seen[ia[:8]] = (i, ia)
+        ib = hashlib.sha256(tb.replace("@TAG@", f"b{i}").encode()).hexdigest()
+        if ib[:8] in seen:
+            pair = (seen[ib[:8]], (i, ib))
+            break
+    if pair is None:
+        res.inconclusive.append("no identifier-prefix collision found in the search budget")
+        return
+    (i_a, id_a), (i_b, id_b) = pair
+    pub_a = dict(W.pub(ka), keyid=id_a, keyid_hash_algorithms=["sha256", f"a{i_a}"])
+    pub_b = dict(W.pub(kb), keyid=id_b, keyid_hash_algorithms=["sha256", f"b{i_b}"])
+    steps = [scen.mk_step("build", 1, [id_a], [], [["ALLOW", "*"]], [["ALLOW", "*"]]),
+             scen.mk_step("test", 1, [id_b], [], [["ALLOW", "*"]], [["ALLOW", "*"]])]
+    layout = scen.mk_layout(W, [], steps, [], keys={id_a: pub_a, id_b: pub_b})
+    wires = scen.sign_all(binpath, [(layout, ["ed0"], "new"), (pipeline.leaf_link("build", 0), [ka], "new"), (pipeline.leaf_link("build", 0), [kb], "new"),
+                                    (pipeline.leaf_link("test", 1), [kb], "new")], nproc=1)
+    if set(wires[0]["signed"]["keys"]) != {id_a, id_b}:
+        res.inconclusive.append("the layout's key table does not hold the two searched identifiers after signing")
+        return
+
+    def relabel(w, kid):
+        w = copy.deepcopy(w)
+        w["signatures"][0]["keyid"] = kid
+        return scen.dumps(w)
+    pfx = id_a[:8]
+    keys = [[W.kid("ed0"), W.pub("ed0")]]
+    cases = [scen.verify_case(wires[0], keys, {f"build.{pfx}.link": relabel(wires[1], id_a), f"test.{pfx}.link": relabel(wires[3], id_b)},
+                              meta={"kind": "prefix_collision:control", "expect": "accept"}),
+             scen.verify_case(wires[0], keys, {f"build.{pfx}.link": relabel(wires[2], id_b), f"test.{pfx}.link": relabel(wires[3], id_b)},
+                              meta={"kind": "prefix_collision:link_by_the_other_steps_functionary", "expect": "reject"})]
+    for c, o in zip(cases, common.run_batch(binpath, cases)):
+        if scen.harness_failed(o):
+            res.inconclusive.append(f"executor failure: {str(o)[:200]}")
+            continue
+        ok = o["runs"][0]["v"] == "ok"
+        m = c["meta"]
+        res.note([m["kind"], c["layout"][:80]], True, cls=[f"state:{m['kind']}", "observed:" + ("accept" if ok else "reject")])
+        if ok and m["expect"] == "reject":
+            res.violate("accept-undercounted:link-by-functionary-of-another-step-with-colliding-id-prefix",
+                        f"step 'build' was satisfied by a link of a key that is a functionary of 'test' only; the two identifiers "
+                        f"({id_a[:12]}.., {id_b[:12]}..) share the prefix the link file is named after", c, o, "reject")
+        if not ok and m["expect"] == "accept":
+            res.inconclusive.append(f"prefix-collision control rejected: {o['runs'][0].get('e')}")
+    res.extras["identifier_prefix_collision"] = {"prefix": pfx, "searched": i_b + 1}
+
+
 def main(ctx):
     res = common.Result()
     n = 120 if not ctx.thorough else 3500
     for p in common.pmap(shard, [(ctx.bin, ctx.seed, s, n) for s in range(common.NPROC)]):
         res.merge(p)
+    prefix_collision(ctx.bin, res, ctx.seed)
     return common.finish(
         PROP, ctx.tier, ctx.seed, res, t0=ctx.t0,
         rule="layouts with 1-3 steps, thresholds 0-3, per-step authorised subsets of a 6-key pool, key tables that may "
@@ -244,7 +311,7 @@ def main(ctx):
              "directory not empty; distinct by SHA-256 of (layout, directory)",
         assumptions=["ground truth of who validly signed what is by construction"],
         required=["positive_control_accepted", "expect:reject", "observed:reject", "state:valid(unauth)", "state:misfiled",
-                  "state:flipped", "state:edited", "state:double", "state:cosigned_broken_own", "state:entry_under_unknown_scheme_key", "state:odd_file_name",
+                  "state:flipped", "state:edited", "state:double", "state:cosigned_broken_own", "state:entry_under_unknown_scheme_key", "state:odd_file_name", "state:prefix_collision:control", "state:prefix_collision:link_by_the_other_steps_functionary",
                   "decided_by_authorisation_rule", "threshold:0",
                   "threshold:2", "threshold:3"],
         min_evals=500)
